@@ -334,6 +334,32 @@ def r4_samplers(check, prog):
     lp = loops[0]
     construct = 'BoundedGaussian.sample'
     cond = lp['cond']
+    # `while True: mask = ...; if not any(mask): break; resample` is the same loop
+    # written with the test in the body: the array's step is then
+    # (unchanged if not any(mask) else resampled); read the test off that
+    dowhile = False
+    if cond == TRUE:
+        vars2 = dict(lp['vars'])
+        for n_, (i0, st_) in lp['vars'].items():
+            if st_ is None or st_[0] != 'ite':
+                continue
+            c_, a_, b_ = st_[1], st_[2], st_[3]
+            neg = False
+            while c_[0] == 'un' and c_[1] == 'not':
+                c_, neg = c_[2], not neg
+            stay, go = (a_, b_) if neg else (b_, a_)
+            if stay[0] == 'phi' and stay[1] == n_ and go[0] == 'upd' and go[1] == stay \
+                    and c_[0] == 'call' and c_[1] in ('numpy.any', 'any') and \
+                    len(c_[2]) == 1:
+                mvar = [m_ for m_, (mi, ms) in lp['vars'].items()
+                        if ms is not None and ms == c_[2][0]]
+                if len(mvar) == 1:
+                    vars2[n_] = (i0, go)
+                    cond = intern(('call', c_[1], (('phi', mvar[0], st_[1] and
+                                                    stay[2]),), ()))
+                    dowhile = True
+        if dowhile:
+            lp = dict(lp, vars=vars2, cond=cond)
     # (a) loop test: any(mask) on a boolean mask
     var = None
     ok = cond is not None and cond[0] == 'call' and cond[1] in ('numpy.any', 'any') \
@@ -348,7 +374,8 @@ def r4_samplers(check, prog):
     init, step = lp['vars'][var]
     lid = cond[2][0][2]
     phi_mask = intern(('phi', var, lid))
-    check.require(init is not None and (is_mask(init) or init == TRUE),
+    check.require((init is not None and (is_mask(init) or init == TRUE)) or
+                  (dowhile and init is None),
                   'R4-loop-tests-mask', construct + ' initial mask',
                   'the loop starts from a boolean mask (or True, do-while form)', loc,
                   fail_detail='initial value of %r is %s' % (
